@@ -49,6 +49,7 @@ theorem step_addrs (s : St) (st : Step) : (s.step st).x.addr = s.x.addr ∧ (s.s
          · split <;> simp)
   | del onX j =>
     cases onX <;> simp only [St.step, St.get, St.set, if_true, if_false, Bool.false_eq_true] <;> split <;> simp
+  | check onX j i o => exact ⟨rfl, rfl⟩
 
 theorem step_swapinv (s : St) (st : Step) (h : SwapInv s) : SwapInv (s.step st) := by
   have ha := step_addrs s st
@@ -93,14 +94,52 @@ theorem step_swapinv (s : St) (st : Step) (h : SwapInv s) : SwapInv (s.step st) 
           · exact h
   | del onX j =>
     cases onX <;> simp only [St.step, St.get, St.set, if_true, if_false, Bool.false_eq_true] <;> split <;> exact h
+  | check onX j i o => exact h
+
+theorem stepAll_addrs (s : St) (st : Step) : (s.stepAll st).x.addr = s.x.addr ∧ (s.stepAll st).y.addr = s.y.addr := by
+  cases st with
+  | check onX j i o =>
+    cases onX <;> simp only [St.stepAll, St.get, St.set, Bool.not_true, Bool.not_false, if_true, if_false, Bool.false_eq_true]
+    · exact ⟨trivial, (check_shrink s.y s.x j i o).2.2.2.1⟩
+    · exact ⟨(check_shrink s.x s.y j i o).2.2.2.1, trivial⟩
+  | start onX => exact step_addrs s _
+  | resend onX => exact step_addrs s _
+  | giveUp onX => exact step_addrs s _
+  | deliver toX k => exact step_addrs s _
+  | drop toX k => exact step_addrs s _
+  | swap onX j => exact step_addrs s _
+  | del onX j => exact step_addrs s _
+
+theorem stepAll_swapinv (s : St) (st : Step) (h : SwapInv s) : SwapInv (s.stepAll st) := by
+  cases st with
+  | check onX j i o =>
+    have ha := stepAll_addrs s (.check onX j i o)
+    unfold SwapInv
+    rw [ha.1, ha.2]
+    cases onX <;> simp only [St.stepAll, St.get, St.set, Bool.not_true, Bool.not_false, if_true, if_false, Bool.false_eq_true]
+    · refine ⟨h.1, fun hp => ?_⟩
+      rcases (check_shrink s.y s.x j i o).2.2.2.2.1 with e | ⟨_, e⟩
+      · rw [e] at hp; exact h.2 hp
+      · simpa [shouldSwap] using e
+    · refine ⟨fun hp => ?_, h.2⟩
+      rcases (check_shrink s.x s.y j i o).2.2.2.2.1 with e | ⟨_, e⟩
+      · rw [e] at hp; exact h.1 hp
+      · simpa [shouldSwap] using e
+  | start onX => exact step_swapinv s _ h
+  | resend onX => exact step_swapinv s _ h
+  | giveUp onX => exact step_swapinv s _ h
+  | deliver toX k => exact step_swapinv s _ h
+  | drop toX k => exact step_swapinv s _ h
+  | swap onX j => exact step_swapinv s _ h
+  | del onX j => exact step_swapinv s _ h
 
 theorem run_swapinv (s : St) (steps : List Step) (h : SwapInv s) :
     SwapInv (s.run steps) ∧ (s.run steps).x.addr = s.x.addr ∧ (s.run steps).y.addr = s.y.addr := by
   induction steps generalizing s with
   | nil => exact ⟨h, rfl, rfl⟩
   | cons st rest ih =>
-    have := ih (s.step st) (step_swapinv s st h)
-    have ha := step_addrs s st
+    have := ih (s.stepAll st) (stepAll_swapinv s st h)
+    have ha := stepAll_addrs s st
     simp only [St.run, List.foldl_cons] at this ⊢
     exact ⟨this.1, by rw [this.2.1, ha.1], by rw [this.2.2, ha.2]⟩
 
